@@ -128,7 +128,7 @@ def main(run: Run):
         else:
             design(run, "passive", "CfgsPassive", "{3, 9}", "{1, 3, 5}", 5)
             design(run, "active-lo", "CfgsActiveLo", "{9}", "{2, 5}", 5)
-    sizes = {"passive": (1200, 350, 10), "active": (1600, 500, 12)} if not thorough else \
+    sizes = {"passive": (2000, 350, 12), "active": (2000, 500, 12)} if not thorough else \
             {"passive": (5000, 1500, 14), "active": (8000, 2500, 14)}
     csize = 400 if thorough else CHUNK
     cover = {}
